@@ -17,12 +17,41 @@ def _backend():
     return _B
 
 
+def _history(text):
+    """What the process has expanded BEFORE the observation is made (the patterns of a network are a function of the
+    network alone): the network of the same number and prefix length in the other address family, and the networks one
+    bit shorter and one bit longer at the same address. Their results are not judged."""
+    import ipaddress
+    from sigma.types import SigmaCIDRExpression
+
+    try:
+        net = ipaddress.ip_network(text)
+    except ValueError:
+        return
+    n, p = int(net.network_address), net.prefixlen
+    before = []
+    if net.version == 4:
+        before.append(ipaddress.IPv6Network((n, p), strict=False))
+    elif n < 2**32 and p <= 32:
+        before.append(ipaddress.IPv4Network((n, p), strict=False))
+    cls = type(net)
+    for q in (p - 1, p + 1):
+        if 0 <= q <= net.max_prefixlen:
+            before.append(cls((n, q), strict=False))
+    for b in before:
+        try:
+            SigmaCIDRExpression(str(b)).expand()
+        except Exception:  # noqa: BLE001  (history only)
+            pass
+
+
 def drive_case(case):
     from sigma.types import SigmaCIDRExpression
     from sigma.rule import SigmaRule
     from sigma.rule.detection import SigmaDetectionItem
 
     text = uncps(case["text"])
+    _history(text)
     o = {"id": case["id"], "kind": case["kind"], "net": case["net"], "p": case["p"], "text": case["text"]}
     o["expand"] = outcome(lambda: [cps(p) for p in SigmaCIDRExpression(text).expand()])
     o["item"] = outcome(lambda: [cps(str(v)) for v in SigmaDetectionItem.from_mapping("f|cidr", text).value])
